@@ -23,15 +23,15 @@ EXPLANATION = (
 )
 ASSUMPTIONS = list(C04.ASSUMPTIONS)
 TRUSTED = C04.TRUSTED
-REQUIRED_COVERS = ["limit_reached", "sequential_A1", "hook_raise", "backend_fail", "skipped_message", "raise", "timeout", "timeout_cleanup"]
+REQUIRED_COVERS = ["limit_reached", "sequential_A1", "hook_raise", "backend_fail", "skipped_message", "raise", "timeout", "timeout_cleanup", "backend_cancelled"]
 budget = C04.budget
 coverage_extra = C04.coverage_extra
 
-PER_MSG = ("return", "raise", "backend_fail", "hook_raise", "malformed", "unknown", "timeout", "timeout_cleanup", "empty", "empty_raw")
+PER_MSG = ("return", "raise", "backend_fail", "hook_raise", "malformed", "unknown", "timeout", "timeout_cleanup", "empty", "empty_raw", "backend_cancelled")
 
 
 def bounds(tier: str) -> Dict[str, Any]:
-    return {"messages": "M = 3 quick / 4 thorough", "A": "unbounded Int >= 1", "P": "0 and 1",
+    return {"messages": "M = 3 quick / 4 thorough", "A": "unbounded Int >= 1", "P": "0 (all outcome kinds) and 1 (quick: three kinds; thorough: all)",
             "environment choices": "K = 6 quick / 7 thorough, then deterministic drain", "outcome kinds per message": len(PER_MSG)}
 
 
@@ -43,18 +43,20 @@ def cases(tier: str) -> List[Any]:
     for first in PER_MSG:
         for prefix in itertools.product(range(3), repeat=depth):
             for P in (0, 1):
+                if P == 1 and tier == "quick" and first not in ("return", "hook_raise", "timeout"):
+                    continue
                 out.append({"M": M, "K": K, "first": first, "prefix": list(prefix), "P": P})
     return out
 
 
 def harness(c: sym.Ctx, case: Dict[str, Any]) -> None:
     M = case["M"]
-    per = [case["first"]] + [c.choose(("return", "raise", "backend_fail", "hook_raise", "unknown", "timeout", "empty_raw") if k == 1 else ("return", "hook_raise"), f"outcome{k}") for k in range(1, M)]
+    per = [case["first"]] + [c.choose(("return", "raise", "backend_fail", "hook_raise", "unknown", "timeout", "empty_raw", "backend_cancelled") if k == 1 else ("return", "hook_raise"), f"outcome{k}") for k in range(1, M)]
     skip = ("malformed", "unknown", "empty", "empty_raw")
     kinds = [p if p in skip else "valid" for p in per]
     outcomes = [p if p not in skip else "return" for p in per]
     for p in per:
-        if p in ("hook_raise", "backend_fail", "raise", "timeout", "timeout_cleanup"):
+        if p in ("hook_raise", "backend_fail", "raise", "timeout", "timeout_cleanup", "backend_cancelled"):
             c.cover(p)
         if p in ("malformed", "unknown", "empty", "empty_raw"):
             c.cover("skipped_message")
